@@ -5,17 +5,21 @@
 #ifndef VP_CONTRACTS_BITMAP_H
 #define VP_CONTRACTS_BITMAP_H
 
+#ifdef VP_SMALL /* bounded fallback only */
+#define VP_MAXW ((size_t) 3)
+#else
 #define VP_MAXW ((size_t) 1 << 24) /* bound on capacities so that size arithmetic cannot wrap */
+#endif
 #define VP_MAXBITS (VP_MAXW * 16)
 
 #define VP_MASK(c) (-(size_t) (c)) /* all ones if c else 0 */
 #define BM_WF(bm)                                                                              \
   (__CPROVER_is_fresh (bm, sizeof (*(bm))) && (bm)->size >= 1 && (bm)->size <= VP_MAXW         \
-   && (bm)->els_num <= (bm)->size && (bm)->alloc == &vp_alloc                                  \
+   && (bm)->els_num <= (bm)->size && VP_ALLOC_OK ((bm)->alloc)                                 \
    && __CPROVER_is_fresh ((bm)->varr, (bm)->size * sizeof (bitmap_el_t)))
 /* well-formedness as a postcondition (no freshness): shape only */
 #define BM_WF_POST(bm)                                                                         \
-  ((bm)->els_num <= (bm)->size && (bm)->size >= 1 && (bm)->alloc == &vp_alloc                  \
+  ((bm)->els_num <= (bm)->size && (bm)->size >= 1 && (bm)->alloc == __CPROVER_old ((bm)->alloc) \
    && __CPROVER_POINTER_OFFSET ((bm)->varr) == 0                                               \
    && __CPROVER_OBJECT_SIZE ((bm)->varr) == (bm)->size * sizeof (bitmap_el_t))
 #define BM_W(bm, g) ((bm)->varr[(g) &VP_MASK ((g) < (bm)->els_num)] & VP_MASK ((g) < (bm)->els_num))
